@@ -18,8 +18,8 @@
    (refused)  otherwise error report chosen by the first failing test, cache and subscribers untouched, driver not called
               -- C04_change_refused, C04_do_refused_except_missing_colon (a do specifier without ':' is answered
               InternalError: C04_refuted_do_specifier_without_colon), C04_refusal_class,
-              C04_error_clean_except_unexportable (a value whose nested struct lacks an optional member is stored and
-              then fails to export: C04_refuted_stored_then_error), C04_error_clean_exportable, C04_success_announced
+              C04_error_clean_except_unexportable (exception: a stored value that cannot be exported; repaired for
+              absent optional members by fix 45926fd), C04_error_clean_exportable, C04_success_announced
    (history)  lifted over every request sequence from every cache whose values lie in their value sets
               -- C04_history_invariant, C04_history_write_values, C04_history_call_values *)
 From Coq Require Import ZArith NArith Bool List.
@@ -111,8 +111,11 @@ Theorem C04_refusal_class : forall E d j prev e,
 Proof. exact wire_refusal_class. Qed.
 
 (* full statement: any error reply (also one caused by the driver or by its read-back value) leaves cache and subscribers
-   alone.  Proved with the exact exception of finding nested-optional-struct-stored-then-error: the value was stored and
-   cannot be exported (C04_refuted_stored_then_error); and unconditionally for modules whose values always export *)
+   alone.  Proved with one explicit exception: the value was stored and then cannot be exported.  Until fix 45926fd that
+   happened for every nested struct lacking an optional member (finding nested-optional-struct-stored-then-error, now
+   repaired); since then exportable only fails for a value lacking a MANDATORY member or carrying an unknown key, which
+   validation never returns (C01 validate_sound; the implication in_setb -> exportable is not proved here, it is
+   exercised by the correspondence).  Unconditional for modules whose values always export. *)
 Theorem C04_error_clean_except_unexportable : forall E hook md c rq,
   o_reply (handle E hook md c rq) <> None ->
   (o_upd (handle E hook md c rq) = [] /\ o_cache (handle E hook md c rq) = c) \/
@@ -229,4 +232,3 @@ Print Assumptions C04_history_write_values.
 Print Assumptions C04_history_call_values.
 Print Assumptions C04_refuted_do_specifier_without_colon.
 Print Assumptions C04_refuted_limits_shadow.
-Print Assumptions C04_refuted_stored_then_error.
